@@ -289,6 +289,8 @@ pub enum Valuation {
     Dyadic,
     /// generic floats in +-[0.25,1.5], seeded (for gradient checks)
     Generic,
+    /// the dyadic valuation with inputs scaled by 2^-20 (parameters unchanged)
+    Tiny,
 }
 
 pub fn input_values(v: Valuation, n: usize, seed: u64, key: &str) -> Vec<f32> {
@@ -296,6 +298,7 @@ pub fn input_values(v: Valuation, n: usize, seed: u64, key: &str) -> Vec<f32> {
     match v {
         Valuation::Ints => (0..n).map(|i| (i + 1) as f32).collect(),
         Valuation::Dyadic => (0..n).map(|_| (r.below(9) as f32 - 4.0) / 2.0).collect(),
+        Valuation::Tiny => (0..n).map(|_| (r.below(9) as f32 - 4.0) / 2.0 * 9.536_743e-7).collect(),
         Valuation::Generic => (0..n).map(|_| r.signed(0.25, 1.5)).collect(),
     }
 }
@@ -318,7 +321,7 @@ pub fn params_for(net: &Net, shapes: &[LShape], v: Valuation, seed: u64, key: &s
                 }
             })
             .collect(),
-        Valuation::Dyadic => (0..n).map(|_| (r.below(9) as f32 - 4.0) / 4.0).collect(),
+        Valuation::Dyadic | Valuation::Tiny => (0..n).map(|_| (r.below(9) as f32 - 4.0) / 4.0).collect(),
         Valuation::Generic => (0..n).map(|_| r.signed(0.25, 1.5)).collect(),
     })
 }
@@ -460,7 +463,7 @@ pub fn predict_vs_ref(net: &Net, params: &[P<f32>], x: &[f32], tol: f64) -> Resu
         return Ok(PredictOk { exact: false, nontrivial: false, lib_out: v, overflow: true });
     }
     let nontrivial = {
-        let mut dd: Vec<i64> = want.iter().filter(|v| **v != 0.0).map(|v| (v * 4096.0) as i64).collect();
+        let mut dd: Vec<u64> = want.iter().filter(|v| **v != 0.0).map(|v| v.to_bits()).collect();
         dd.sort_unstable();
         dd.dedup();
         dd.len() >= 2
